@@ -273,20 +273,10 @@ def check_placeholders(ctx: Ctx) -> None:
     for n, c in flow.all_calls():
         if prog.resolve_call(call, c) == [res]:
             b = bind_call(res, c)
-            m_org = origins(prog, call, b.get(res.params[1]), n)
+            m_org = origins(prog, call, b.get(_map_param(res)), n)
             ctx.ob("R-LOSSLESS-L5", f"{call.qual} :: restore uses the map produced by extract",
                    m_org == frozenset({("unpack", ("call", ext.qual), 0)}),
                    "the placeholder map handed to restore must be the one extract just built", where(call, c))
-    # same placeholder spelling on both sides, NUL-delimited
-    folder = Folder(repo)
-    try:
-        pre = folder.const(f"{TW}:_PLACEHOLDER_PREFIX")
-        suf = folder.const(f"{TW}:_PLACEHOLDER_SUFFIX")
-    except Unknown as e:
-        raise AnalysisError(f"placeholder constants: {e}") from e
-    ctx.ob("R-LOSSLESS-L5", f"{TW}:_PLACEHOLDER_PREFIX/_SUFFIX", isinstance(pre, str) and isinstance(suf, str) and pre.startswith("\x00") and suf == "\x00",
-           f"placeholders must be delimited by NUL bytes (cannot be produced by whitespace splitting or occur in text): {pre!r} ... {suf!r}",
-           "text_wrapping.py")
     # the placeholder is built the same way on both sides: what the extraction callback returns and what restore searches
     # for are compared as string templates (constants folded, the index a hole), through helpers and temporaries
     from .callback import callback_of, group_index
@@ -303,6 +293,15 @@ def check_placeholders(ctx: Ctx) -> None:
     for cb_ in ext_cbs:
         for r in prog.flow(cb_.func).cfg.returns():
             ext_t.add(str_template(prog, cb_.func, r.ast.value, r))
+    # NUL-delimited: read off the template the extraction side builds (prefix, index, suffix)
+    pre = suf = None
+    if len(ext_t) == 1:
+        t0 = next(iter(ext_t))
+        if t0 is not None and len(t0) == 3 and t0[0][0] == "c" and t0[1] == ("h",) and t0[2][0] == "c":
+            pre, suf = t0[0][1], t0[2][1]
+    ctx.ob("R-LOSSLESS-L5", f"{TW}:_PLACEHOLDER_PREFIX/_SUFFIX", isinstance(pre, str) and isinstance(suf, str) and pre.startswith("\x00") and suf == "\x00",
+           f"placeholders must be delimited by NUL bytes (cannot be produced by whitespace splitting or occur in text): {pre!r} ... {suf!r}",
+           "text_wrapping.py")
     res_t: set = set()
     seen_f: set[str] = set()
     work = [res]
@@ -326,8 +325,17 @@ def check_placeholders(ctx: Ctx) -> None:
     # a single extraction pass over the combined pattern
     eflow = prog.flow(ext)
     subs = [(n, c) for n, c in eflow.all_calls() if isinstance(c.func, ast.Attribute) and c.func.attr == "sub"]
-    ok = len(subs) == 1 and isinstance(repo.resolve_expr(subs[0][1].func.value, ext.module, ext), ConstInfo) and \
-        repo.resolve_expr(subs[0][1].func.value, ext.module, ext).name == "ATOMIC_CONSTRUCT_PATTERN"  # type: ignore[union-attr]
+    def is_combined(e: ast.AST, f: FuncInfo) -> bool:
+        r = repo.resolve_expr(e, f.module, f) if isinstance(e, (ast.Name, ast.Attribute)) else None
+        return isinstance(r, ConstInfo) and r.name == "ATOMIC_CONSTRUCT_PATTERN"
+
+    ok = len(subs) == 1 and is_combined(subs[0][1].func.value, ext)
+    if len(subs) == 1 and not ok and isinstance(subs[0][1].func.value, ast.Name) and subs[0][1].func.value.id in ext.params:
+        # the pattern is a parameter: every caller of the extraction must hand in the combined pattern
+        pname = subs[0][1].func.value.id
+        sites = [(f, c) for f in repo.functions.values() if not isinstance(f.node, ast.Lambda)
+                 for c in walk_no_nested(f.node) if isinstance(c, ast.Call) and prog.resolve_call(f, c) == [ext]]
+        ok = bool(sites) and all(bind_call(ext, c).get(pname) is not None and is_combined(bind_call(ext, c)[pname], f) for f, c in sites)
     ctx.ob("R-LOSSLESS-L5", f"{ext.qual} :: one pass over ATOMIC_CONSTRUCT_PATTERN", ok,
            "constructs are extracted by a single sub() over the combined pattern (nested re-extraction would corrupt placeholders)", where(ext, ext.node))
     # the callback stores the whole match
@@ -340,6 +348,19 @@ def check_placeholders(ctx: Ctx) -> None:
                 if group_index(prog, cbf, n_.ast.value, n_, cb_.mparam) == 0:
                     ok = True
         ctx.ob("R-LOSSLESS-L5", f"{cbf.qual} :: stores the whole match", ok, "the map must hold match.group(0) (the construct verbatim)", where(cbf, cbf.node))
+
+
+def _map_param(res: FuncInfo) -> str:
+    """The parameter of the restore function that holds the placeholder map (by annotation or dict-style use, not position)."""
+    a = res.node.args
+    for x in a.posonlyargs + a.args + a.kwonlyargs:
+        if x.annotation is not None and norm(x.annotation).lower().startswith(("dict", "mapping", "collections.abc.mapping")):
+            return x.arg
+    for p in res.params:
+        for x in ast.walk(res.node):
+            if isinstance(x, ast.Attribute) and isinstance(x.value, ast.Name) and x.value.id == p and x.attr in ("items", "get", "keys", "values"):
+                return p
+    return res.params[1] if len(res.params) > 1 else res.params[0]
 
 
 def str_template(prog, fi: FuncInfo, expr: ast.AST | None, node: Node, depth: int = 0):
@@ -881,7 +902,23 @@ def check_paragraph_independence(ctx: Ctx) -> None:
     wp = repo.func(f"{TW}:wrap_paragraph")
     flow = prog.flow(ft)
     loops = [h for h in flow.cfg.nodes if h.kind == "for" and any(prog.resolve_call(ft, c) == [wp] for m in flow.loop_body_nodes(h) for c in flow.calls_in(m))]
-    ctx.require("R-LOOPSTATE", "paragraph loop of fill_text", len(loops), 1)
+    # ... or a comprehension over the paragraphs: its element expression has a scope of its own, nothing it assigns survives
+    # to the next paragraph (walrus targets and mutated captures excepted)
+    comps = []
+    for n, c in flow.all_calls():
+        if prog.resolve_call(ft, c) == [wp]:
+            comp = _enclosing_comprehension(c)
+            if comp is not None:
+                comps.append((n, c, comp))
+    ctx.require("R-LOOPSTATE", "paragraph loop of fill_text", len(loops) + len(comps), 1)
+    for n, c, comp in comps:
+        from ..loader import parent as _parent
+
+        owner = _parent(comp)
+        leaks = [x for x in ast.walk(owner) if isinstance(x, ast.NamedExpr)] if owner is not None else []
+        ctx.ob("R-LOOPSTATE", f"{ft.qual} :: paragraphs are wrapped independently", not leaks,
+               "each paragraph is wrapped by the element expression of a comprehension: no variable is carried from one paragraph to the next"
+               + ("; but an assignment expression leaks a value out of it" if leaks else ""), where(ft, c))
     for h in loops:
         carried = flow.loop_carried(h)
         # the hanging-indent modes switch the first-line indent to the continuation indent after the first paragraph:
